@@ -997,6 +997,8 @@ def _collect(it, c, a):
         for x in xs:
             _map_insert(it, mp, x, UNIT)
         return mp
+    if target == 'PathBuf':
+        return PathV([_comp_of(x) for x in xs])
     raise Unsupported('collect into ' + target)
 
 
@@ -1143,6 +1145,8 @@ def _key_eq(it, k1, k2):
         return True
     if isinstance(k1, Opaque) and isinstance(k2, Opaque):
         return k1.tag == k2.tag
+    if isinstance(k1, PathV) and isinstance(k2, PathV):
+        return len(k1.comps) == len(k2.comps) and all(_comp_eq(it, x, y) for x, y in zip(k1.comps, k2.comps))
     if isinstance(k1, (StrSym, StringV)) and isinstance(k2, (StrSym, StringV)):
         if len(k1.b) != len(k2.b):
             return False
@@ -1701,6 +1705,192 @@ def _lx_end(it, c, a):
 @model('<Lexer as LexerInternal>::trivia')
 def _lx_trivia(it, c, a):
     lx = _lx(a); lx.start = lx.end; return UNIT
+
+
+# ---------------------------------------------------------------- std::path over component lists (PathV)
+
+def _pv(v):
+    v = deref(v)
+    while isinstance(v, RefV):
+        v = v.get()
+    if not isinstance(v, PathV):
+        raise Unsupported('path operation on %r' % (v,))
+    return v
+
+
+def _comp_eq(it, x, y):
+    if x == 'ROOT' or y == 'ROOT':
+        return x == y
+    if len(x) != len(y):
+        return False
+    conds = [a.z() == b.z() for a, b in zip(x, y)]
+    if not conds:
+        return True
+    return it.choose_bool(BoolV(z3.simplify(z3.And(conds))))
+
+
+def _comp_val(cmp_):
+    return Agg('enum', 'Component', 'RootDir', []) if cmp_ == 'ROOT' else Agg('enum', 'Component', 'Normal', [StrSym(list(cmp_))])
+
+
+def _comp_of(v):
+    v = deref(v)
+    if isinstance(v, Agg) and v.name == 'Component':
+        return 'ROOT' if v.variant == 'RootDir' else list(deref(v.fields[0]).b)
+    raise Unsupported('path component %r' % (v,))
+
+
+@model('Path::components', 'Path::iter')
+def _path_components(it, c, a):
+    return PyIter((_comp_val(x) for x in list(_pv(a[0]).comps)))
+
+
+@model('<Component as PartialEq>::eq', '<Component as PartialEq>::ne')
+def _component_eq(it, c, a):
+    r = _comp_eq(it, _comp_of(a[0]), _comp_of(a[1]))
+    return BoolV(r if c.endswith('eq') else not r)
+
+
+@model('Path::strip_prefix')
+def _path_strip_prefix(it, c, a):
+    p_, b_ = _pv(a[0]), _pv(a[1])
+    if len(b_.comps) > len(p_.comps):
+        return err(UNIT)
+    for x, y in zip(b_.comps, p_.comps):
+        if not _comp_eq(it, x, y):
+            return err(UNIT)
+    return ok(PathV(p_.comps[len(b_.comps):]))
+
+
+@model('Path::starts_with')
+def _path_starts_with(it, c, a):
+    p_, b_ = _pv(a[0]), _pv(a[1])
+    if len(b_.comps) > len(p_.comps):
+        return BoolV(False)
+    return BoolV(all(_comp_eq(it, x, y) for x, y in zip(b_.comps, p_.comps)))
+
+
+@model('Path::to_path_buf', '<PathBuf as Clone>::clone', '<Path as ToOwned>::to_owned', 'Path::to_owned')
+def _path_to_buf(it, c, a):
+    return PathV(_pv(a[0]).comps)
+
+
+@model('<PathBuf as Deref>::deref', 'PathBuf::as_path', '<PathBuf as AsRef>::as_ref', '<Path as AsRef>::as_ref', '<PathBuf as Borrow>::borrow')
+def _path_deref(it, c, a):
+    return a[0]
+
+
+def _split_name(it, name):
+    """std: file_stem / extension of a file name: (stem bytes, extension bytes or None)"""
+    dots = [i for i, b in enumerate(name) if it.choose_bool(BoolV(b.z() == 0x2E) if b.sym() else BoolV(b.v == 0x2E))]
+    if len(name) == 2 and dots == [0, 1]:
+        return list(name), None                   # ".."
+    if not dots or dots[-1] == 0:
+        return list(name), None                   # no dot, or only a leading dot
+    return list(name[:dots[-1]]), list(name[dots[-1] + 1:])
+
+
+@model('Path::extension')
+def _path_extension(it, c, a):
+    p_ = _pv(a[0])
+    if not p_.comps or p_.comps[-1] == 'ROOT':
+        return none()
+    stem, ext = _split_name(it, p_.comps[-1])
+    return none() if ext is None else some(StrSym(ext))
+
+
+@model('Path::file_name')
+def _path_file_name(it, c, a):
+    p_ = _pv(a[0])
+    if not p_.comps or p_.comps[-1] == 'ROOT':
+        return none()
+    return some(StrSym(list(p_.comps[-1])))
+
+
+@model('PathBuf::set_extension')
+def _path_set_extension(it, c, a):
+    p_ = _pv(a[0]); new = deref(a[1])
+    if not p_.comps or p_.comps[-1] == 'ROOT':
+        return BoolV(False)
+    stem, ext = _split_name(it, p_.comps[-1])
+    nb = [IntV(x, 8, 0) for x in new.s.encode()] if isinstance(new, StrV) else list(new.b)
+    p_.comps[-1] = stem + ([IntV(0x2E, 8, 0)] + nb if nb else [])
+    return BoolV(True)
+
+
+@model('Path::to_str')
+def _path_to_str(it, c, a):
+    # valid UTF-8 is the caller's assumption (the specs constrain the bytes)
+    p_ = _pv(a[0]); out = []
+    for i, x in enumerate(p_.comps):
+        if x == 'ROOT':
+            out.append(IntV(0x2F, 8, 0)); continue
+        if i and p_.comps[i - 1] != 'ROOT':
+            out.append(IntV(0x2F, 8, 0))
+        out.extend(x)
+    return some(StrSym(out))
+
+
+@model('<&OsStr as PartialEq>::eq', '<&OsStr as PartialEq>::ne', '<OsStr as PartialEq>::eq', '<OsStr as PartialEq>::ne')
+def _osstr_eq(it, c, a):
+    x, y = deref(a[0]), deref(a[1])
+    xb = list(x.b) if isinstance(x, (StrSym, StringV)) else [IntV(v, 8, 0) for v in x.s.encode()]
+    yb = list(y.b) if isinstance(y, (StrSym, StringV)) else [IntV(v, 8, 0) for v in y.s.encode()]
+    if len(xb) != len(yb):
+        r = False
+    else:
+        r = it.choose_bool(BoolV(z3.simplify(z3.And([p.z() == q.z() for p, q in zip(xb, yb)])))) if xb else True
+    return BoolV(r if c.endswith('eq') else not r)
+
+
+@model('str::replace')
+def _str_replace_char(it, c, a):
+    # only the `replace::<char>(c, &str of one byte)` form: byte-wise, no fork
+    if '<char>' not in c:
+        return NotImplemented
+    s_ = deref(a[0]); frm = a[1]; to = deref(a[2])
+    tb = to.s.encode() if isinstance(to, StrV) else None
+    if tb is None or len(tb) != 1 or not isinstance(frm, IntV) or frm.sym() or frm.v >= 0x80:
+        raise Unsupported('str::replace form')
+    src = s_.b if isinstance(s_, (StrSym, StringV)) else [IntV(v, 8, 0) for v in s_.s.encode()]
+    out = []
+    for b in src:
+        if b.sym():
+            out.append(IntV(z3.If(b.v == frm.v, z3.BitVecVal(tb[0], 8), b.v), 8, 0))
+        else:
+            out.append(IntV(tb[0] if b.v == frm.v else b.v, 8, 0))
+    return StringV(out)
+
+
+@model('<String as Into>::into', '<&str as Into>::into', '<SmolStr as From>::from')
+def _into_smolstr(it, c, a):
+    if 'SmolStr' not in c:
+        return NotImplemented
+    v = deref(a[0])
+    if isinstance(v, StringV):
+        v = StrSym(list(v.b))
+    if isinstance(v, Agg) and v.name == 'SmolStr':
+        return v
+    return Agg('struct', 'SmolStr', None, [v])
+
+
+@model('Vec::sort_by_key', 'slice::sort_by_key', '[]::sort_by_key')
+def _sort_by_key(it, c, a):
+    v = deref(a[0]); xs = v.items if isinstance(v, VecV) or (isinstance(v, SliceV) and v.off == 0) else None
+    if xs is None:
+        raise Unsupported('sort_by_key on %r' % (v,))
+    keyed = []
+    for i, x in enumerate(xs):
+        k = it.call_closure(a[1], [RefV(xs, i)])
+        rev = False
+        while isinstance(k, Agg) and k.kind == 'struct' and len(k.fields) == 1:
+            rev = rev != (k.name == 'Reverse'); k = k.fields[0]
+        if not isinstance(k, IntV) or k.sym():
+            raise Unsupported('sort_by_key with a non-concrete key')
+        keyed.append((-k.v if rev else k.v, i, x))
+    keyed.sort(key=lambda t: (t[0], t[1]))          # stable
+    xs[:] = [t[2] for t in keyed]
+    return UNIT
 
 
 @model('Box::new_uninit')
